@@ -5,6 +5,8 @@
 -/
 import TinyHttpModel.Lts.Queue
 import TinyHttpModel.Lemmas.QueueInv
+import TinyHttpModel.Lts.Whole
+import TinyHttpModel.Lemmas.WholeInv
 
 namespace TH.Props.C07
 open TH.Lts.Queue
@@ -53,5 +55,34 @@ theorem look_enabled (s : State) (t : Nat) (hr : isRunnable (phaseOf s t) = true
     millisecond of its timeout now takes the element. -/
 example : (run {} [.call 0 (.popTimeout 20000000), .call 1 .pop, .look 0, .look 1, .tick 19500000,
       .push 7 (some 0), .look 0]).map (fun s => (s.taken, s.queue.length)) = some ([7], 0) := by decide
+
+/-! ### the whole server: accept loop, pool, connection threads, queue, receivers (`Lts.Whole`) -/
+
+/-- the queue of every execution of the whole server is an execution of `Lts.Queue`: all theorems
+    above hold for it, whatever the pool and the connections do. -/
+theorem whole_queue_reachable (s : Lts.Whole.State) (h : Lts.Whole.Reachable s) : Reachable s.queue :=
+  Lts.Whole.queue_reachable h
+
+/-- what has been queued is exactly what the connection threads took from their connections:
+    as a multiset, and connection by connection in wire order. -/
+theorem whole_pushed_are_the_connections_requests (s : Lts.Whole.State) (h : Lts.Whole.Reachable s) :
+    s.queue.pushed.Perm ((s.conns.map Lts.Whole.pushedOf).flatten) ∧
+    ∀ c ∈ s.conns, (Lts.Whole.pushedOf c).Sublist s.queue.pushed :=
+  ⟨(Lts.Whole.dataInv_reachable h).perm, (Lts.Whole.dataInv_reachable h).sub⟩
+
+/-- Exactly once, whole server: the requests handed to receivers so far together with those still
+    queued are, as a multiset, exactly the requests the connection threads have taken from their
+    connections — nothing lost, nothing duplicated — and every connection's requests appear among
+    them in wire order (so a single receiver sees one connection's requests in order). -/
+theorem whole_exactly_once (s : Lts.Whole.State) (h : Lts.Whole.Reachable s) :
+    (s.queue.taken ++ elems s.queue.queue).Perm ((s.conns.map Lts.Whole.pushedOf).flatten) ∧
+    ∀ c ∈ s.conns, (Lts.Whole.pushedOf c).Sublist (s.queue.taken ++ elems s.queue.queue) := by
+  rw [queue_exactly_once s.queue (whole_queue_reachable s h)]
+  exact whole_pushed_are_the_connections_requests s h
+
+/-- a connection thread never runs ahead of its client and never goes back. -/
+theorem whole_pushed_le_sent (s : Lts.Whole.State) (h : Lts.Whole.Reachable s) :
+    ∀ c ∈ s.conns, c.pushed ≤ c.sent.length :=
+  (Lts.Whole.dataInv_reachable h).le
 
 end TH.Props.C07
